@@ -816,6 +816,12 @@ def cdim_cases(tier, seed):
                         if dimarg == "bad_none" and (_is_square_number(i_r * o_r) and _is_square_number(i_c * o_c)):
                             continue  # a perfect-square size is (documentedly) guessed as equal in/out dims: nothing to reject
                         yield {"what": "choi", "shape": list(shape), "r": r, "allow_rect": allow_rect, "env": env, "dimarg": dimarg}
+    # unequal dimensions whose product is a perfect square: only the explicit dims distinguish them from a map M_n -> M_n (cf. seeded C05-10)
+    for o, i in ((1, 4), (4, 1), (2, 8), (8, 2)):
+        shape = (o, i, o, i)
+        for dimarg in choi_dim_forms(shape):
+            if dimarg != "none":
+                yield {"what": "choi", "shape": list(shape), "r": 1, "allow_rect": True, "env": False, "dimarg": dimarg}
     for bad in ("3x2x1", "1d3"):
         yield {"what": "dim_too_big", "bad": bad, "shape": [2, 2, 2, 2]}
 
